@@ -212,7 +212,7 @@ fn tol_of(float: &str) -> Tol {
     if float == "f32" {
         Tol { c_obj: 1e-4, c_gap: 1e-4, c_orth: 1e-5, c_pred: 1e-5, c_mean: 1e-5 }
     } else {
-        Tol { c_obj: 1e-9, c_gap: 1e-12, c_orth: 1e-8, c_pred: 1e-12, c_mean: 1e-12 }
+        Tol { c_obj: 1e-9, c_gap: 1e-12, c_orth: 1e-12, c_pred: 1e-12, c_mean: 1e-12 }
     }
 }
 
@@ -531,16 +531,59 @@ fn judge_ols(x: &[Vec<f64>], y: &[Vec<f64>], s: &Spec, out: &FitOut, tl: &Tol, v
         ));
         return;
     }
-    // against the harness's own least-squares solution
-    if let Some((wref, bref)) = refmodel::lstsq(x, &y.iter().map(|v| v[0]).collect::<Vec<_>>(), s.intercept) {
-        let sse_ref = 2.0 * n as f64 * prob.objective(&wref.iter().map(|&v| vec![v]).collect::<Vec<_>>(), &[bref]);
-        let sse = rnorm * rnorm;
-        st.inc("ols_reference_compared");
-        if sse > sse_ref + tl.c_orth * s_scale * s_scale {
-            viols.push(Violation::new("ols.sse_above_reference_minimum", format!("SSE {:e} > reference minimum {:e}; params={:?} intercept={} reference={:?} {}", sse, sse_ref, out.w, out.b[0], wref, bref), case_json()));
-        }
-    } else {
+    // against the harness's own least-squares solution (modified Gram-Schmidt on centred, unit-norm columns)
+    let yv: Vec<f64> = y.iter().map(|v| v[0]).collect();
+    let Some(lsq) = refmodel::lstsq(x, &yv, s.intercept) else {
         st.inc("ols_reference_singular");
+        return;
+    };
+    st.inc("ols_reference_compared");
+    st.max("ols_max_condition_estimate", lsq.cond);
+    // residual orthogonal to the CENTRED feature columns (implied by orthogonality to x_j and to 1): this is
+    // where an ill-conditioned solve shows, x_c.r = ||x_c||^2 (beta_ref - beta)
+    let keyc = if s.float == "f32" { "ols_max_centred_orthogonality_ratio_f32" } else { "ols_max_centred_orthogonality_ratio_f64" };
+    if s.intercept {
+        for j in 0..p {
+            let xc: Vec<f64> = (0..n).map(|i| x[i][j] - lsq.xmean[j]).collect();
+            let xcn = xc.iter().map(|v| v * v).sum::<f64>().sqrt();
+            let g: f64 = (0..n).map(|i| xc[i] * rr[i]).sum();
+            let lim = tl.c_orth * xcn * s_scale;
+            st.max(keyc, g.abs() / (xcn * s_scale).max(1e-300) / tl.c_orth);
+            if g.abs() > lim {
+                viols.push(Violation::new(
+                    "ols.residual_not_orthogonal_to_centred_feature_column",
+                    format!("|(x_{} - mean).r| = {:e} > {:e} = c * ||x_c|| * S (condition estimate {:e}); params={:?} intercept={} reference params={:?} intercept={}", j, g.abs(), lim, lsq.cond, out.w, out.b[0], lsq.beta, lsq.b),
+                    case_json(),
+                ));
+                return;
+            }
+        }
+    }
+    // SSE of the returned coefficients, evaluated on the same centred data as the reference (no cancellation
+    // against a large intercept): SSE = sum (y_c - x_c.beta)^2 + n * (b - (mean(y) - mean(x).beta))^2
+    let db = (out.b[0] - lsq.ymean) + (0..p).map(|j| out.w[j][0] * lsq.xmean[j]).sum::<f64>();
+    let mut sse = 0.0;
+    let mut noise = 0.0;
+    for i in 0..n {
+        let mut v = yv[i] - lsq.ymean;
+        let mut mag = (yv[i] - lsq.ymean).abs();
+        for j in 0..p {
+            let t = (x[i][j] - lsq.xmean[j]) * out.w[j][0];
+            v -= t;
+            mag += t.abs();
+        }
+        sse += v * v;
+        noise += v.abs() * mag;
+    }
+    sse += n as f64 * db * db;
+    let slack = (tl.c_orth * (s_scale + lsq.cond * rnorm)).powi(2) + 8.0 * f64::EPSILON * (noise + lsq.sse);
+    st.max(if s.float == "f32" { "ols_max_sse_excess_over_slack_f32" } else { "ols_max_sse_excess_over_slack_f64" }, (sse - lsq.sse) / slack);
+    if sse > lsq.sse + slack {
+        viols.push(Violation::new(
+            "ols.sse_above_reference_minimum",
+            format!("SSE {:e} > reference minimum {:e} + slack {:e} (condition estimate {:e}); params={:?} intercept={} reference params={:?} intercept={}", sse, lsq.sse, slack, lsq.cond, out.w, out.b[0], lsq.beta, lsq.b),
+            case_json(),
+        ));
     }
 }
 
@@ -623,6 +666,7 @@ fn main() {
          offset in {0, 5, -100} lattice units and scale in {1e-3, 1, 1e3}: every column sees every (offset, scale) pair (p = 1: all 9; p >= 2: the 9 'same for all columns' images, for the designs marked PerColumn in coverage.image_modes additionally 8 per column with the other columns at (0, 1), for those marked Cross the full 9^p product); \
          variants: an appended constant column (0, 1 or 5000) and an appended duplicate of column 0, run only with penalty > 0 and l1_ratio < 1; targets = fixed linear function of the centred lattice coordinates + constant + fixed noise table, 3 columns. \
          plus 'even_targets' members (integer targets that are an even function of column 0, so column 0 is exactly orthogonal to them). \
+         Tall designs (n in {16, 24, 40} >= 8 x columns, p in {1, 2}; quick {16, 40}) carry the same images and, for OLS only, strongly offset images (offset 1e7 in f64, 2000 in f32 and f64, unit spacing; p = 2: both columns / one column). \
          Estimators: OLS (each target column, intercept on / off), ElasticNet (single target columns), MultiTaskElasticNet (first 1..3 target columns; quick: all 3); grid penalty {0,.01,.1,1,10} x l1_ratio {0,.5,1} x intercept {on,off} x tol {1e-4,1e-8}; \
          max_iterations 1e5 (quick 1e4) when penalty*l1_ratio > 0, 2000 (quick 500) when penalty*l1_ratio = 0 (the implementation's gap then equals the primal objective and never closes on noisy targets); f32 and f64. \
          Every member is run. evaluations = fits; a fit that ends on the iteration cap is counted in not_converged_iteration_cap and not judged (except on mean-zero orthogonal designs with an l1 part, where ending on the cap is itself a violation); \
@@ -634,7 +678,8 @@ fn main() {
     ctx.assume("reported gap >= -1e-12 (f64) / -1e-4 (f32) x M");
     ctx.assume("global cross-check: P(returned) - P* <= gap/n + eps with P* from the harness's own f64 block coordinate descent on the centred problem (<= 20000 sweeps, accepted only when its own KKT-implied decrease is < 1e-14 x ||y||^2/2n, otherwise counted in global_check_skipped_reference_unconverged)");
     ctx.assume("l1 threshold: a non-zero coefficient row j with ||x_j'(R + x_j w_j)|| < n*penalty*l1_ratio - margin is a violation; margin = (10*tol + 100*c_obj) x (threshold + sum_k |x_j.x_k| ||w_k|| + ||x_j'Y||); inside the margin = indeterminate (counted)");
-    ctx.assume("OLS: |x_j.r| <= c x ||x_j|| x S and |1.r| <= c x sqrt(n) x S with S = ||y|| + sum_k ||x_k|| |beta_k| + sqrt(n)|b| (backward-error scale of a least-squares solve), c = 1e-8 (f64) / 1e-5 (f32); SSE ladder slack (c S)^2; SSE <= reference minimum (normal equations on standardised centred columns, Gaussian elimination) + c S^2");
+    ctx.assume("OLS: |x_j.r| <= c x ||x_j|| x S, |1.r| <= c x sqrt(n) x S and, with intercept, |(x_j - mean_j).r| <= c x ||x_j - mean_j|| x S, with S = ||y|| + sum_k ||x_k|| |beta_k| + sqrt(n)|b| (backward-error scale of a least-squares solve), c = 1e-12 (f64) / 1e-5 (f32) (a Householder QR stays below 1e-3 of these on the whole catalogue, see ols_max_*_ratio); SSE ladder slack (c S)^2");
+    ctx.assume("OLS: SSE <= reference minimum + (c (S + kappa ||r||))^2 + 8 eps_f64 x evaluation magnitude; reference = modified Gram-Schmidt on the augmented matrix of centred (with intercept), unit-norm columns in f64; both SSEs are evaluated on the centred data; kappa = the reference's condition estimate of [X | 1]");
     ctx.assume("predict == X w + b within 1e-12 (f64) / 1e-5 (f32) x (sum |x_ij w_j| + |b|)");
     ctx.assume("domain: [X | 1 if intercept] has full column rank (lvmc_core::refmath::rank on unit-norm columns, pivot tolerance 1e-7) — otherwise the case is run only with penalty > 0 and l1_ratio < 1 and counted out of domain else");
     ctx.assume("'mean-zero orthogonal design' (where the iteration cap is a violation): |mean_j| <= 1e-6 rms_j and |x_j.x_k| <= 1e-6 ||x_j|| ||x_k||, l1 part > 0, f64 — or f32 with tol >= 1e-4 and all non-zero |x_ij| in [1e-2, 1e2] (beyond that the f32 gap cannot resolve tol x ||y||^2)");
@@ -643,9 +688,15 @@ fn main() {
     let thorough = ctx.thorough();
     let datas = catalogue::enumerate(thorough);
     let mut tasks: Vec<Task> = Vec::new();
-    for (i, _) in datas.iter().enumerate() {
+    for (i, d) in datas.iter().enumerate() {
         for float in ["f64", "f32"] {
+            if d.only_float.as_deref().map_or(false, |f| f != float) {
+                continue;
+            }
             for est in ["ols", "enet", "mtl"] {
+                if d.ols_only && est != "ols" {
+                    continue;
+                }
                 tasks.push(Task { data: i, float, est });
             }
         }
